@@ -635,9 +635,17 @@ Definition path_join (dir name : text) : text :=
   | 47 :: _ => name                          (* absolute *)
   | _ => match dir with [] => name | _ => dir ++ [47] ++ name end
   end.
+(* Path::components drops trailing separators and trailing "." components *)
+Fixpoint strip_trailing (fuel : nat) (r : text) : text :=
+  match fuel with O => r | S f =>
+  match r with
+  | 47 :: r' => strip_trailing f r'
+  | 46 :: 47 :: r' => strip_trailing f (47 :: r')
+  | _ => r
+  end end.
 Definition has_ap_extension (p : text) : bool :=
   (* Path::extension() of the last component, compared case-insensitively with "ap" *)
-  let r := rev p in
+  let r := strip_trailing (length p) (rev p) in
   let '(ext_rev, rest) := take_while (fun c => negb (c =? 46) && negb (c =? 47)) r in
   match rest with
   | 46 :: before => text_eqb (map ascii_lower (rev ext_rev)) [97; 112]
